@@ -238,10 +238,80 @@ fn loop_scenario(plan: &Plan) -> ! {
     finish(&v, plan)
 }
 
+// ---- the wake-up protocol: a tracing subscriber parks the transport thread at its k-th trace event
+mod park {
+    use std::sync::atomic::{AtomicUsize, Ordering};
+    use std::sync::{Condvar, Mutex};
+    pub static SEEN: AtomicUsize = AtomicUsize::new(0);
+    pub static PARK_AT: AtomicUsize = AtomicUsize::new(usize::MAX);
+    pub static STATE: Mutex<(bool, bool)> = Mutex::new((false, false));      // (parked, released)
+    pub static CV: Condvar = Condvar::new();
+    pub static MAIN: Mutex<Option<std::thread::ThreadId>> = Mutex::new(None);
+    pub struct Sub;
+    impl tracing::Subscriber for Sub {
+        fn enabled(&self, _: &tracing::Metadata<'_>) -> bool { true }
+        fn new_span(&self, _: &tracing::span::Attributes<'_>) -> tracing::span::Id { tracing::span::Id::from_u64(1) }
+        fn record(&self, _: &tracing::span::Id, _: &tracing::span::Record<'_>) {}
+        fn record_follows_from(&self, _: &tracing::span::Id, _: &tracing::span::Id) {}
+        fn enter(&self, _: &tracing::span::Id) {}
+        fn exit(&self, _: &tracing::span::Id) {}
+        fn event(&self, _: &tracing::Event<'_>) {
+            if Some(std::thread::current().id()) == *MAIN.lock().unwrap() { return; }
+            let k = SEEN.fetch_add(1, Ordering::SeqCst);
+            if k == PARK_AT.load(Ordering::SeqCst) {
+                let mut g = STATE.lock().unwrap();
+                g.0 = true;
+                CV.notify_all();
+                let (g2, _) = CV.wait_timeout_while(g, std::time::Duration::from_secs(5), |s| !s.1).unwrap();
+                drop(g2);
+            }
+        }
+    }
+    pub fn arm(k: usize) { SEEN.store(0, Ordering::SeqCst); *STATE.lock().unwrap() = (false, false); PARK_AT.store(k, Ordering::SeqCst); }
+    pub fn wait_parked(ms: u64) -> bool {
+        let g = STATE.lock().unwrap();
+        let (g, _) = CV.wait_timeout_while(g, std::time::Duration::from_millis(ms), |s| !s.0).unwrap();
+        g.0
+    }
+    pub fn release() { STATE.lock().unwrap().1 = true; PARK_AT.store(usize::MAX, Ordering::SeqCst); CV.notify_all(); }
+}
+
+/// The solver's counterexample: an emission by another thread lands at a point of the transport's drain-and-sleep cycle after which
+/// the transport blocks with the event still in the channel. Native position search: the transport thread is parked at its p-th trace
+/// event (p = 0, 1, ...), a second description is emitted, the transport is released and everything goes quiet; a client that connects
+/// afterwards must be told about both descriptions.
+fn wake_scenario(plan: &Plan) -> ! {
+    *park::MAIN.lock().unwrap() = Some(std::thread::current().id());
+    tracing::subscriber::set_global_default(park::Sub).expect("subscriber");
+    let mut v: Vec<&str> = vec![];
+    let nap = |ms: u64| std::thread::sleep(Duration::from_millis(ms));
+    for p in 0..12usize {
+        let port = { let l = std::net::TcpListener::bind("127.0.0.1:0").unwrap(); l.local_addr().unwrap().port() };
+        let addr: std::net::SocketAddr = format!("127.0.0.1:{}", port).parse().unwrap();
+        let rec = metrics_exporter_tcp::TcpBuilder::new().listen_address(addr).buffer_size(Some(64)).build().expect("build");
+        nap(200);
+        park::arm(p);
+        metrics::with_local_recorder(&rec, || metrics::describe_counter!("c11wa", "c11wakeAdesc"));
+        let parked = park::wait_parked(400);
+        metrics::with_local_recorder(&rec, || metrics::describe_counter!("c11wb", "c11wakeBdesc"));
+        park::release();
+        nap(300);
+        let mut c = TcpStream::connect_timeout(&addr, Duration::from_secs(2)).expect("connect");
+        let raw = read_all(&mut c, 500);
+        let (frames, _rest, _broken) = frames_of(&raw);
+        let has = |needle: &str| frames.iter().any(|f| count(f, needle.as_bytes()) > 0);
+        println!("transport parked at its trace event #{} ({}): a client connecting after both descriptions learns A: {} B: {}", p, if parked { "reached" } else { "not reached" }, has("c11wakeAdesc"), has("c11wakeBdesc"));
+        if !(has("c11wakeAdesc") && has("c11wakeBdesc")) { v.push("no_lost_wakeup"); break; }
+        if !parked { break; }
+    }
+    finish(&v, plan)
+}
+
 fn main() {
     let plan = load_plan(&std::env::args().nth(1).expect("plan"));
     if plan.scenario == "c11_drive" { drive_scenario(&plan); }
     if plan.scenario == "c11_loop" { loop_scenario(&plan); }
+    if plan.scenario == "c11_wake" { wake_scenario(&plan); }
     let has = plan.inputs.get("has").copied().unwrap_or(0) != 0;
     let n = plan.inputs.get("n").copied().unwrap_or(0) as usize;
     // pick a free port
